@@ -406,7 +406,10 @@ class Crate:
                     vs = [plain(a, vn, vt, o["mod"], where + "." + vn, card="oneof") for a, vn, vt in o["raw"]]
                     vs.sort(key=lambda v: v["tag"])
                     if sorted(attr["tags"]) != [v["tag"] for v in vs]:
-                        raise ExtractError(f"{where}: oneof tags {attr['tags']} differ from its variants {[v['tag'] for v in vs]}")
+                        # not an extraction problem but a property of the binding under test: prost routes exactly the tags of
+                        # the attribute into the oneof on decode, whatever the variants declare. Keep the attribute's list;
+                        # the comparison with the baseline descriptor and the decode vectors report the difference.
+                        pass
                     entries.append({"name": name, "oneof": True, "tags": sorted(attr["tags"]), "variants": vs})
                 else:
                     entries.append(plain(attr, name, tytext, st["mod"], where))
